@@ -20,6 +20,7 @@ RULE = ('(a) Hypothesis draws datetimes (year 1..9999 for GeneralizedTime, 1969.
         'returns, the contents end in Z, use "." as decimal mark, have no trailing zero and no dangling point in the fraction, '
         'and denote - read by an independent X.680 reader with exact rationals - the same instant as s. Non-trivial = non-zero '
         'offset (a) / a fraction or an offset in the string (b); distinct = distinct (type, datetime) / (type, codec, string).')
+RULE += (' ' + 'Also: a returned datetime that cannot be asked for its offset is a violation; calendar boundaries (29 February, last day of months, 23:59:59).')
 ASSUMPTIONS = ['the X.680 time grammar reader in this module is correct (fractions apply to the last unit present)']
 SHARDS = {'quick': (16, 400), 'thorough': (16, 12000)}
 BUDGET = {'quick': 100, 'thorough': 1500}
